@@ -116,13 +116,17 @@ func (c *vConn) NoticeDump(serverID, offset uint32, file string, flags uint16) e
 
 // master: the model of the MySQL master after COM_BINLOG_DUMP.
 func (c *vConn) master(packets [][]byte) {
-	for _, p := range packets {
+	for i, p := range packets {
 		b := append([]byte{0}, p...)
 		select {
 		case c.in <- b:
+			vhEnvDone(evPacket + i)
 		case <-c.closed:
 			return
 		}
+	}
+	if c.sc.end != endIdle {
+		defer vhEnvDone(evEnd)
 	}
 	switch c.sc.end {
 	case endEOF:
@@ -231,6 +235,15 @@ func vwRotate(name string, pos uint64) []byte {
 	return vwEv(4, 0, body)
 }
 
+// environment events (see vhEnvWait / vhEnvDone)
+const (
+	evPacket       = 100 // + index of the packet the master has delivered
+	evHandlerEnter = 200 // + number of the handler call
+	evHandlerExit  = 300
+	evCancel       = 400
+	evEnd          = 500 // the master's end-of-script action (EOF / ERR packet, connection loss)
+)
+
 // stop causes of VH_C05_Stream
 const (
 	scCancel = iota
@@ -282,7 +295,9 @@ func VH_C05_Stream(cause, npk, ahead, hmode int) {
 	ctx := newVCtx()
 	if cause == scCancel || cause == scCancelAndLost || cause == scHandlerAndCancel {
 		go func() {
+			vhEnvWait(evCancel)
 			ctx.cancel() // the start of this goroutine is itself an arbitrary scheduling point
+			vhEnvDone(evCancel)
 		}()
 	}
 	s, _ := NewStreamer(env.dsn(), 7, &vMapper{})
@@ -296,9 +311,13 @@ func VH_C05_Stream(cause, npk, ahead, hmode int) {
 		vhAssert(!streamReturned, "the handler is never called after Stream has returned")
 		vhAssert(!inHandler, "one handler call at a time")
 		inHandler = true
+		vhEnvWait(evHandlerEnter + delivered)
+		vhEnvDone(evHandlerEnter + delivered)
 		if hmode == 1 {
 			vhYield()
 		}
+		vhEnvWait(evHandlerExit + delivered)
+		vhEnvDone(evHandlerExit + delivered)
 		delivered++
 		inHandler = false
 		if (cause == scHandler || cause == scHandlerAndCancel) && delivered == 1 {
